@@ -139,6 +139,20 @@ func (e *Env) Eval(ex Expr) (Val, error) {
 			}
 			lo = l.T
 		}
+		if pt, ok := v.Ty.Underlying().(*types.Pointer); ok {
+			// slicing a pointer to an array: the backing array is the pointed-to object
+			if at, isA := pt.Elem().Underlying().(*types.Array); isA {
+				hi = fmt.Sprintf("%d", at.Len())
+				if t.Hi != nil {
+					h, err := e.Eval(t.Hi)
+					if err != nil {
+						return Val{}, err
+					}
+					hi = h.T
+				}
+				return Val{T: fmt.Sprintf("(mk-slice %s %s (- %s %s) (- %d %s))", v.T, lo, hi, lo, at.Len(), lo), Ty: types.NewSlice(at.Elem())}, nil
+			}
+		}
 		if _, ok := v.Ty.Underlying().(*types.Slice); !ok {
 			return Val{}, e.errf("slice expression on %s", v.Ty)
 		}
